@@ -1,2 +1,3 @@
-/- driver stub for C11: replaced when the model exists -/
-def main : IO Unit := pure ()
+/- driver for C11: lockstep model of the transaction state machines (shared with C12) -/
+import BacVerif.Drv.TsmDrv
+def main : IO Unit := BacVerif.Drv.tsmMain
